@@ -356,3 +356,4 @@ __attribute__((weak)) void verif_event(int kind, const volatile void* a, const v
   (void)kind; (void)a; (void)b;
 }
 __attribute__((weak)) int verif_quarantine(void* block) { (void)block; return 0; }
+__attribute__((weak)) void verif_relax(void) {}
